@@ -93,7 +93,7 @@ Definition subset_N (a b : list N) : bool := forallb (fun x => existsb (N.eqb x)
 
 Lemma bundled_tcp_partition :
   (* every TCP signature line is in exactly one list *)
-  list_N_eqb (sort_N (live_tcp_lines ++ dead_tcp_lines ++ undecided_tcp_lines))
+  list_N_eqb (sort_N (live_tcp_lines ++ live1_tcp_lines ++ dead_tcp_lines ++ undecided_tcp_lines))
              (sort_N (sig_lines SecTQ ++ sig_lines SecTS)) = true
   /\ length (sig_lines SecTQ ++ sig_lines SecTS) = 199%nat
   (* the lists are what the deciders compute on the file *)
@@ -102,9 +102,9 @@ Lemma bundled_tcp_partition :
   /\ list_N_eqb (sort_N (class_lines CEolPad ++ class_lines COddTtl)) dead_eol_pad_lines = true
   /\ subset_N (class_lines CValueWindow) dead_value_window_lines = true
   /\ subset_N dead_value_window_lines (class_lines CValueWindow ++ class_lines COptZero) = true
-  /\ subset_N undecided_tcp_lines (class_lines COptZero) = true
-  /\ (length live_tcp_lines, length dead_bad_ttl_lines, length dead_value_window_lines, length dead_eol_pad_lines,
-      length undecided_tcp_lines) = (61, 12, 80, 22, 24)%nat.
+  /\ subset_N (live1_tcp_lines ++ undecided_tcp_lines) (class_lines COptZero) = true
+  /\ (length live_tcp_lines, length live1_tcp_lines, length dead_bad_ttl_lines, length dead_value_window_lines,
+      length dead_eol_pad_lines, length undecided_tcp_lines) = tcp_partition_sizes.
 Proof. vm_compute. repeat split; reflexivity. Qed.
 
 (* ---------------- witnesses ---------------- *)
@@ -216,7 +216,7 @@ Lemma bundled_http_partition :
   list_N_eqb (sort_N (live_http_lines ++ dead_http_lines ++ undecided_http_lines)) (sort_N (sig_lines SecHQ ++ sig_lines SecHS)) = true
   /\ length (sig_lines SecHQ ++ sig_lines SecHS) = 99%nat
   /\ (length live_http_lines, length dead_http_exact_lines, length dead_http_expsw_lines, length dead_http_value_lines,
-      length undecided_http_lines) = (47, 13, 9, 20, 10)%nat.
+      length undecided_http_lines) = http_partition_sizes.
 Proof. vm_compute. repeat split; reflexivity. Qed.
 
 (* KV6 on a live signature *)
